@@ -2,6 +2,7 @@ import FeatModel.Model.Proto
 import FeatModel.Model.Poly
 import FeatModel.Model.FE
 import FeatModel.Model.FECfg
+import FeatModel.Model.FEHermite
 /-! line-protocol driver for the C15 models (reference bases, trafo, chain rule, DOF mappings, interpolation)
 
     `<op> <fam> <S|H> <dim> <mesh body> <op arguments>`, ops `ev`, `ref`, `dofs`, `interp`, `vol`, `tabcheck` -/
@@ -11,7 +12,7 @@ namespace FeatModel.DrvC15
 
 def famOf : String → Option Fam
   | "L1" => some .L1 | "L2" => some .L2 | "L3" => some .L3 | "D0" => some .D0 | "D1" => some .D1
-  | "CR" => some .CR | "B2" => some .B2 | "PB" => some .PB | _ => none
+  | "CR" => some .CR | "B2" => some .B2 | "PB" => some .PB | "HE" => some .HE | "BF" => some .BF | _ => none
 
 def binom : Nat → Nat → Nat
   | _, 0 => 1
@@ -83,7 +84,7 @@ def handle : P String := do
       let c ← nat
       let x ← many m.dim rat
       if singular m c x ∧ f ≠ Fam.D0 then pure "ABORT" else
-      match evalCell f m c x with
+      match evalCellAny f m c x with
       | none => pure "UNSUPPORTED"
       | some ce =>
         let phis := " ".intercalate (ce.phi.map (showPhi ce))
@@ -97,22 +98,39 @@ def handle : P String := do
       | some tab =>
         if f = Fam.D0 then pure "UNSUPPORTED" else
         let perm := slotPerm f m c
-        let rows := pts.map fun x => " ".intercalate ((List.range tab.nloc).map fun i => showRats (tab.row x (perm.getD i i)))
+        let sc := slotScale f m c
+        let rows := pts.map fun x => " ".intercalate ((List.range tab.nloc).map fun i =>
+          showRats ((tab.row x (perm.getD i i)).map (sc.getD i 1 * ·)))
         pure s!"R {tab.nloc} {b2s tab.hasGrad} {b2s tab.hasHess} {" ".intercalate rows}"
+    | "evpts" =>
+      let c ← nat
+      let np ← nat
+      let pts ← many np (many m.dim rat)
+      let mut out := ""
+      let mut hdr := ""
+      for x in pts do
+        if singular m c x ∧ f ≠ Fam.D0 then return "ABORT"
+        match evalCellAny f m c x with
+        | none => return "UNSUPPORTED"
+        | some ce =>
+          hdr := s!"P {ce.phi.length} {b2s ce.hasGrad} {b2s ce.hasHess}"
+          out := out ++ " " ++ " ".intercalate (ce.phi.map (showPhi ce))
+      pure (hdr ++ out)
     | "dofs" =>
       let nc := m.n m.dim
       let all := (List.range nc).flatMap fun c => localDofs f m c
       pure s!"D {numDofs f m} {nc} {numLocal f m.kind m.dim} {showNats all}"
     | "interp" =>
+      if f = Fam.BF then return "UNSUPPORTED"
       let p ← polyP m.dim
       let nq ← nat
       let qs ← many nq (do let c ← nat; let x ← many m.dim rat; pure (c, x))
-      let u := interpolate f m p
+      let u := interpolateAny f m p
       let mut out := s!"I {showRatsL u} {nq}"
       let mut first := true
       for (c, x) in qs do
         if singular m c x ∧ f ≠ Fam.D0 then return "ABORT"
-        match feEval f m u c x with
+        match feEvalAny f m u c x with
         | none => return "UNSUPPORTED"
         | some (ce, v, g, h) =>
           if first then
@@ -138,7 +156,7 @@ def handle : P String := do
         if !(evcfgMasks.contains mask) ∨ (List.range 6).any (fun b => hasBit mask (2 ^ b) && !hasBit caps (2 ^ b)) then
           pure "UNSUPPORTED-MASK"
         else if singular m c x ∧ f ≠ Fam.D0 then pure "ABORT" else
-        match evalCellCfg f m c x mask, evalCellCfg f m c x caps with
+        match evalCellCfgAny f m c x mask, evalCellCfgAny f m c x caps with
         | some (nl, r), some (_, full) => pure s!"C {nl} {mask} {showRats r} F {caps} {showRats full}"
         | _, _ => pure "UNSUPPORTED"
     | "caps" =>
